@@ -51,8 +51,25 @@ pub enum FContent {
     NoContent,
 }
 
+/// one pack as the manifest pack describes it (ManifestPack opened on its own)
+#[derive(Serialize, Deserialize, PartialEq, Eq, Debug, Clone)]
+pub struct FPackInfo {
+    pub uuid: String,
+    pub id: u16,
+    pub kind: String,
+    pub size: u64,
+    pub group: u8,
+    pub location: String,
+    /// free data through get_pack_free_data(pack id) and get_pack_free_data_uuid(uuid)
+    pub free_by_id: Acc<Option<String>>,
+    pub free_by_uuid: Acc<Option<String>>,
+}
+
 #[derive(Serialize, Deserialize, PartialEq, Eq, Debug, Clone, Default)]
 pub struct FDump {
+    /// the pack list read from the manifest pack of the entry-point file, opened directly
+    #[serde(default)]
+    pub manifest: Option<Acc<Vec<FPackInfo>>>,
     pub open: Option<Acc<()>>,
     pub pack_count: Option<u16>,
     pub packs: BTreeMap<u16, Acc<i64>>,
@@ -78,6 +95,39 @@ pub struct Job {
     /// same time (several readers waiting on one damaged cluster), results are not compared
     #[serde(default)]
     pub concurrent: u8,
+}
+
+fn dump_manifest(main: &Path) -> Acc<Vec<FPackInfo>> {
+    let hex = |b: &[u8]| b.iter().map(|x| format!("{x:02x}")).collect::<String>();
+    let cp = match jbk::tools::open_pack(main) {
+        Ok(c) => c,
+        Err(e) => return Acc::Err(e.to_string().chars().take(200).collect()),
+    };
+    let r = match cp.get_manifest_pack_reader() {
+        Ok(Some(r)) => r,
+        Ok(None) => return Acc::Err("no manifest pack in the file".into()),
+        Err(e) => return Acc::Err(e.to_string().chars().take(200).collect()),
+    };
+    let m = match jbk::reader::ManifestPack::new(r) {
+        Ok(m) => m,
+        Err(e) => return Acc::Err(e.to_string().chars().take(200).collect()),
+    };
+    let mut out = vec![];
+    let mut infos: Vec<&jbk::reader::PackInfo> = vec![m.get_directory_pack_info()];
+    infos.extend(m.get_pack_infos().iter());
+    for pi in infos {
+        out.push(FPackInfo {
+            uuid: pi.uuid.to_string(),
+            id: pi.pack_id.into_u16(),
+            kind: format!("{:?}", pi.pack_kind),
+            size: pi.pack_size.into_u64(),
+            group: pi.pack_group,
+            location: pi.pack_location.as_str().to_string(),
+            free_by_id: acc(m.get_pack_free_data(pi.pack_id).map(|o| o.map(hex))),
+            free_by_uuid: acc(m.get_pack_free_data_uuid(pi.uuid).map(|o| o.map(hex))),
+        });
+    }
+    Acc::Ok(out)
 }
 
 fn check_pack_reader(r: &jbk::Reader) -> Result<bool, String> {
@@ -117,6 +167,9 @@ pub fn run_job(job: &Job) -> FDump {
                 d.file_checks.insert(f.clone(), acc(cp.check()));
             }
         }
+    }
+    if job.full {
+        d.manifest = Some(dump_manifest(&dir.join(&job.main)));
     }
     let c = match jbk::reader::Container::new(dir.join(&job.main)) {
         Ok(c) => {
